@@ -32,8 +32,8 @@ ASSUMPTIONS = [
     "'replace' is only issued on qualitative features (renaming a numeric bound would change the partition)",
     "moving missing values that already sit inside another group is not issued (the API only groups leaders)",
 ]
-BUDGET = {"quick": 320, "thorough": 3000}
-DEADLINE_S = {"quick": 230, "thorough": 2800}
+BUDGET = {"quick": 320, "thorough": 10000}
+DEADLINE_S = {"quick": 230, "thorough": 3300}
 STR_NAN = "__NAN__"
 
 
